@@ -114,6 +114,14 @@ package heur
 //@   modifies nothing
 //@   nopanic
 //@
+//@ func (*MoveRanker).RankNoisy
+//@   props C16
+//@   requires b.STM <= 1 && m < 1<<15 && (m >> 12) <= 5 && (m >> 12) != 1 && all(i, 0, 63, b.SquaresToPiece[i] <= 6)
+//@   requires 1 <= b.SquaresToPiece[m.From()] && b.SquaresToPiece[b.CaptureSq(m)] <= 5
+//@   ensures [band] (7168 <= result && result <= 7168 + 209) || (-8192 <= result && result <= -8192 + 209)
+//@   modifies nothing
+//@   nopanic
+//@
 //@ # ---- `search` views
 //@ func (*MoveRanker).FailHigh view search
 //@   trusted frame only: updates the history tables
@@ -132,3 +140,17 @@ package heur
 //@   nopanic
 //@   loop 1: invariant stm <= 1 && res <= 1 && 1 <= start[0] && start[0] <= 3 && 1 <= start[1] && start[1] <= 3 && occ & ^pre(occ) == 0
 //@   loop 1: modifies start
+//@
+//@ # ---- `picker` views (C16): only the bands of the ranks matter to the picker.  Both bands are
+//@ # ---- proved in the main contracts; their structural preconditions (piece codes, square ranges,
+//@ # ---- every history cell within +-1024) are the representation invariant of the board, the
+//@ # ---- generators' output (C01) and the table invariant that every Add / Clear preserves.
+//@ func (*MoveRanker).RankNoisy view picker
+//@   trusted band proved in the main contract (post.band); preconditions discharged by C01/C04 invariants, not re-checked here
+//@   ensures (7168 <= result && result <= 7168 + 209) || (-8192 <= result && result <= -8192 + 209)
+//@   modifies nothing
+//@
+//@ func (*MoveRanker).RankQuiet view picker
+//@   trusted band proved in the main contract (post.band) under the table invariant
+//@   ensures -3072 <= result && result <= 3072
+//@   modifies nothing
